@@ -314,6 +314,44 @@ pub fn directed() -> Vec<Case> {
         vec![Item::Media(vec![r(".x", &[]).rule(), r("a", &[".x"]).rule()]), r(".x b", &[])],
         vec![r(".x", &[]), Item::Media(vec![r(".y .x", &[]).rule()]), r("a", &[".x"])],
     ];
+    // @extend chains of 2..4 links in EVERY order of the rules (a link declared before the rule
+    // it chains onto must still be propagated)
+    fn perms(n: usize) -> Vec<Vec<usize>> {
+        if n == 1 {
+            return vec![vec![0]];
+        }
+        let mut out = vec![];
+        for p in perms(n - 1) {
+            for pos in 0..n {
+                let mut q = p.clone();
+                q.insert(pos, n - 1);
+                out.push(q);
+            }
+        }
+        out
+    }
+    let links = [".y", ".z", "b", "#j"];
+    for target in [".x", "a .x"] {
+        for len in 2..=4usize {
+            if target != ".x" && len == 4 {
+                continue;
+            }
+            let mut rules = vec![r(target, &[])];
+            let mut prev = ".x";
+            for l in links.iter().take(len) {
+                rules.push(r(l, &[prev]));
+                prev = l;
+            }
+            for p in perms(rules.len()) {
+                k += 1;
+                out.push(Case {
+                    items: p.iter().map(|i| rules[*i].clone()).collect(),
+                    seed: k.wrapping_mul(0x9e37_79b9_7f4a_7c15),
+                    class: "directed:chain-order".into(),
+                });
+            }
+        }
+    }
     for items in hand {
         k += 1;
         out.push(Case {
